@@ -35,7 +35,7 @@ COMPONENTS = {"real": ["Model.__init__/update/finish", "ladim.main.main (sampled
 ASSUMPTIONS = ["the shims override only methods the base classes have and delegate unchanged"]
 TIERS = {"quick": dict(runs=500, budget_s=50, shrink=100),
          "thorough": dict(runs=50000, budget_s=900, shrink=200)}
-REQUIRED_PROBES = ["cold", "warm", "via_main", "plugin_relative_path", "plugin_module_name", "plugin_same_basename_two_dirs", "plugin_dotted_stem", "ibm_kill_checked",
+REQUIRED_PROBES = ["cold", "warm", "via_main", "plugin_relative_path", "plugin_module_name", "plugin_same_basename_two_dirs", "plugin_dotted_stem", "grid_plugin_with_close", "ibm_kill_checked",
                    "late_release", "scalar_in_record"]
 
 PROFILE = gen.profile(
@@ -68,6 +68,7 @@ def generate(seed: int, tier: str, idx: int) -> dict:
                 sc["flow"]["amp_" + c] = [a[k % len(a)] for k in range(n)]
         plan["main"] = False
         gen.make_restartable(sc)
+    plan["grid_close"] = s.chance(0.3)      # the user's grid plug-in has a close() of its own
     # the other plug-in points (grid, forcing, output, state, time, release, tracker) by path or by dotted module name
     plan["by_name"] = [m for m in ("grid", "forcing", "output", "state", "time", "release", "tracker") if s.chance(0.3)]
     sc["plan"] = plan
@@ -163,7 +164,8 @@ def check_protocol(res: Result, sc, run, first_step: int, last_step: int, ref) -
     if extra:
         res.add(Violation("C19.multiplicity", extra[0], "steps outside the run", extra, "none"))
     if run.finished:
-        for mod in ("forcing", "ibm", "output"):
+        expect_close = ["forcing", "ibm", "output"] + (["grid"] if sc["plan"].get("grid_close") else [])
+        for mod in expect_close:
             if closes.count(mod) != 1:
                 res.add(Violation("C19.close", None, f"{mod}.close calls", closes.count(mod), 1))
     # --- state visibility
@@ -246,10 +248,19 @@ def execute(sc) -> Result:
     try:
         edit0 = _install_plugin(d, pl["plugin"], twin=pl["plugin"] == "twin")
 
+        if pl.get("grid_close"):
+            shim_src = (world.PLUGIN_DIR / "shim.py").read_text()
+            (d / "gridplug.py").write_text(shim_src + "\n\ndef _grid_close(self):\n    r = _rec()\n    if r is not None:\n"
+                                           "        r.call('grid', 'close')\n\n\nGrid.close = _grid_close\n")
+
         def edit(cfg):
             cfg = edit0(cfg) or cfg
+            if pl.get("grid_close"):
+                cfg["grid"]["module"] = str(d / "gridplug.py")
             for sec in pl.get("by_name", []):
                 if sec == "forcing" and pl["plugin"] == "twin":
+                    continue
+                if sec == "grid" and pl.get("grid_close"):
                     continue
                 if cfg.get(sec, {}).get("module", "").endswith("shim.py"):
                     cfg[sec]["module"] = "ladsim.plugins.shim"
@@ -294,6 +305,8 @@ def execute(sc) -> Result:
             res.probes["plugin_same_basename_two_dirs"] += 1
         if pl["plugin"].startswith("dotted"):
             res.probes["plugin_dotted_stem"] += 1
+        if pl.get("grid_close"):
+            res.probes["grid_plugin_with_close"] += 1
         marks = run.rec.plugin_marks
         want = [f"file:{d.name}"] if pl["plugin"] != "twin" else [f"forcing:{d.name}", f"file:{d.name}"]
         if pl["plugin"] != "name" and marks != want:
